@@ -31,13 +31,14 @@ POOLS = {
     "cbit": [True],
     "cpkl": [(1, 2), u"s", {"a": [1]}, 3.5],
     "ccomp": [u"c" * 10, u"", u"é" * 50, u"zip" * 400],
+    "cvarx": [u"v", u"", u"x" * 300, u"y" * 30000, u"z" * 70],      # variable-length column that stores its offsets early
     "ccol": [b"c1", b"\x00\xff", b"col" * 60, b"z"],        # a column-only field (fields.COLUMN): no postings at all
 }
 for i in range(300):                      # enough distinct values to cross the 256 threshold of reference columns
     POOLS["cref"].append(u"ref-%04d" % i)
 
 STORED_FIELDS = ("blob", "tags", "num", "big", "ratio", "when", "flag")
-COLUMN_FIELDS = ("num", "big", "ratio", "when", "flag", "cref", "cvar", "cfix", "cbit", "cpkl", "ccomp", "tags", "ccol")
+COLUMN_FIELDS = ("num", "big", "ratio", "when", "flag", "cref", "cvar", "cfix", "cbit", "cpkl", "ccomp", "tags", "ccol", "cvarx")
 
 
 def okey(v):
@@ -80,6 +81,7 @@ def make_schema(variant=0):
         cpkl=fields.STORED,
         ccomp=fields.ID(sortable=columns.CompressedBytesColumn()),
         ccol=fields.COLUMN(columns.VarBytesColumn()),
+        cvarx=fields.ID(sortable=columns.VarBytesColumn(write_offsets_cutoff=4)),
     )
     # a dynamic field: indexed, scorable, with vectors, not stored
     schema.add("*_dyn", fields.TEXT(analyzer=ana, phrase=True, vector=(variant % 2 == 0)), glob=True)
@@ -96,7 +98,7 @@ def rand_adoc(rng, key, rich=True):
         for f in STORED_FIELDS:
             if rng.random() < 0.6:
                 d["s"][f] = rng.randrange(1, len(POOLS[f]) + 1)
-        for f in ("cref", "cvar", "cfix", "ccomp", "ccol"):
+        for f in ("cref", "cvar", "cfix", "ccomp", "ccol", "cvarx"):
             if rng.random() < 0.6:
                 d["c"][f] = rng.randrange(1, min(len(POOLS[f]), 12) + 1)
     # stored numeric/date/keyword fields double as sortable columns with the same value
